@@ -200,10 +200,18 @@ class Peer:
         return inbound(self.begin, mtype, self.me, self.them, seq, now, extra, **kw)
 
 
+def st_payload():
+    """content of a length-prefixed data field of an application message: any byte values (NUL, SOH, '=' over-represented)"""
+    frag = st.sampled_from([b'\x00', b'\x01', b'=', b'\x0110=000\x01', b'a\x00b', b'\xff\xfe', b'text'])
+    return st.lists(st.one_of(frag, st.binary(min_size=0, max_size=4)), min_size=1, max_size=5).map(b''.join).filter(lambda b: len(b) > 0).map(lambda b: b.hex())
+
+
 def st_history():
     op = st.one_of(
         st.tuples(st.just('send')), st.tuples(st.just('send')),
+        st.tuples(st.just('send_data'), st_payload()),
         st.tuples(st.just('batch'), st.integers(2, 6)),
+        st.tuples(st.just('batch_data'), st.lists(st.one_of(st.none(), st_payload()), min_size=2, max_size=5)),
         st.tuples(st.just('in_app')),
         st.tuples(st.just('in_testreq')),
         st.tuples(st.just('in_hb')),
@@ -328,6 +336,19 @@ class SeqHistory:
                 oid[0] += 1
                 trace.append('send app o%d' % oid[0])
                 absorb(S.send(sessref.nos_spec('o%d' % oid[0])), 'send')
+            elif k == 'send_data':
+                oid[0] += 1
+                trace.append('send app o%d with EncodedText %s' % (oid[0], op[1]))
+                absorb(S.send(sessref.nos_spec('o%d' % oid[0], data=bytes.fromhex(op[1]))), 'send')
+                cls.add('data_field')
+            elif k == 'batch_data':
+                specs = []
+                for d in op[1]:
+                    oid[0] += 1
+                    specs.append(sessref.nos_spec('o%d' % oid[0], data=None if d is None else bytes.fromhex(d)))
+                trace.append('send_batch of %d, EncodedText %s' % (len(specs), op[1]))
+                absorb(S.batch(specs), 'batch')
+                cls.update(['batch', 'data_field'])
             elif k == 'batch':
                 ids = []
                 for _ in range(op[1]):
@@ -467,3 +488,640 @@ class C17(SeqHistory):
 
 
 CHECKS.update({'C16': C16, 'C17': C17})
+
+
+# ================================================================================================
+# C18: ResendRequest answered with a complete, faithful replay
+# ================================================================================================
+class C18:
+    id = 'C18'
+    level = 'exploration'
+    build = [('asan', 'fx')]
+    workers = 8
+    examples = 1600
+    assumptions = ['the request range lies inside what the session has sent: 1 <= BeginSeqNo <= last sent number, EndSeqNo = 0 or BeginSeqNo <= EndSeqNo <= last sent number '
+                   '(a conformant counterparty detects a gap only from a number it has seen)',
+                   'holes in the store are the numbers of administrative messages (Logon, Heartbeat replies), which the session never stores; with no persister every number is a hole',
+                   'tolerances, each accepted by the oracle: a gap-fill may extend beyond EndSeqNo over numbers that were not requested; a final gap-fill may cover the next unused number '
+                   '(the session then continues from the NewSeqNo it announced); SendingTime of the replay is the time of the replay',
+                   'real Session/Connection in the coroutine model over the in-memory socket, virtual clock (advanced between the original sends and the request)']
+    rule = ('Hypothesis draws FIX version, role, store (memory | file | none), a sending history of 1-30 numbers each either an application message (stored) or an administrative '
+            'reply (hole), and a request [B,E] inside the sent range (E=0 or B<=E). The reply stream is walked with a cursor p:=B: an application message must carry MsgSeqNum p, '
+            'PossDupFlag=Y, OrigSendingTime == the SendingTime of the stored original and the original application content, p+=1; a SequenceReset-GapFill must carry MsgSeqNum p and '
+            'NewSeqNo n>p with no stored number of the range in [p,n), p:=n; nothing else may be sent; at the end p must be beyond the end of the range; the session must be back in '
+            'continuous state; the next new message carries max(last sent+1, p). Non-trivial: range containing >= 2 holes and >= 2 stored messages with EndSeqNo != 0, or a hole '
+            'between two stored messages.')
+
+    def __init__(self, tier):
+        self.tier = tier
+        if tier == 'thorough':
+            self.examples = 100000
+            self.workers = 16
+
+    def make_executor(self):
+        return executor()
+
+    def strategy(self):
+        return st.fixed_dictionaries({
+            'schema': st.sampled_from(['UTEST', 'F44']),
+            'role': st.sampled_from(['i', 'a']),
+            'persist': st.sampled_from(['mem', 'file', 'mem', 'file', 'none']),
+            'hist': st.one_of(st.lists(st.sampled_from(['app', 'app', 'admin']), min_size=1, max_size=12), st.lists(st.sampled_from(['app', 'app', 'admin']), min_size=3, max_size=30)),
+            'b': st.one_of(st.integers(0, 3), st.integers(0, 10 ** 6)), 'e': st.integers(0, 10 ** 6), 'e0': st.sampled_from([False, False, True]),
+            'again': st.booleans(),
+        })
+
+    def run(self, case, ex):
+        schema = case['schema']
+        begin = sessref.BEGIN[schema]
+        initiator = case['role'] == 'i'
+        me, them = ('CLI', 'SRV') if initiator else ('SRV', 'CLI')
+        peer = Peer(begin, them, me)
+        sessref.wipe(ex)
+        clock = T0
+        sessref.set_clock(ex, clock)
+        S = Sess(ex, schema)
+        pname = 'none' if case['persist'] == 'none' else case['persist'] + ':r'
+        sent = {}            # number -> Msg (original transmission)
+        trace = ['%s %s store=%s' % (schema, 'initiator' if initiator else 'acceptor', case['persist'])]
+        nr = 1
+
+        def record(o):
+            for m in o.msgs:
+                if m.seq in sent:
+                    raise Violation('C18: setup: number %d used twice\n%s' % (m.seq, '\n'.join(trace)))
+                sent[m.seq] = m
+
+        o = S.new(case['role'], me, them, 30, pname)
+        record(o)
+        o = S.feed(peer.msg('A', nr, ts(clock), [(98, 0), (108, 30)])); nr += 1
+        record(o)
+        n = 0
+        for k in case['hist']:
+            clock += 1
+            sessref.set_clock(ex, clock)
+            n += 1
+            if k == 'app':
+                record(S.send(sessref.nos_spec('o%d' % n)))
+            else:
+                o = S.feed(peer.msg('1', nr, ts(clock), [(112, 'T%d' % n)])); nr += 1
+                record(o)
+        last = max(sent)
+        if sorted(sent) != list(range(1, last + 1)):
+            raise Violation('C18: setup: sent numbers are not 1..%d: %s' % (last, sorted(sent)))
+        stored = {s for s, m in sent.items() if not m.is_admin} if case['persist'] != 'none' else set()
+        trace.append('sent 1..%d, stored %s' % (last, sorted(stored)))
+        B = 1 + case['b'] % last
+        E = 0 if case['e0'] else B + case['e'] % (last - B + 1)
+        result = self.request(ex, S, peer, sent, stored, last, B, E, nr, clock + 100, trace)
+        nr += 1
+        p = result
+        # the next new message
+        clock += 200
+        sessref.set_clock(ex, clock)
+        o = S.send(sessref.nos_spec('after'))
+        want = max(last + 1, p)
+        new = [m for m in o.msgs]
+        if len(new) != 1 or new[0].seq != want or new[0].possdup:
+            raise Violation('C18: the new message after the replay carries %s, expected MsgSeqNum %d (last sent %d, replay cursor ended at %d)\n  %s' % (
+                [(m.type, m.seq) for m in new], want, last, p, '\n  '.join(trace)))
+        if case['again'] and case['persist'] != 'none':
+            # a second request (the session must be able to answer again): the whole range sent so far, incl. the message just sent
+            sent2 = dict(sent); sent2[want] = new[0]
+            stored2 = set(stored) | {want}
+            for q in range(last + 1, want):
+                pass   # numbers announced away by a gap-fill: never used, not stored
+            self.request(ex, S, peer, sent2, stored2, want, 1 + case['e'] % want, 0, nr, clock + 300, trace)
+        S.delete()
+        inr = [s for s in range(B, (E or last) + 1)]
+        holes = [s for s in inr if s not in stored]
+        st_in = [s for s in inr if s in stored]
+        hole_between = any(s not in stored and any(a in stored for a in inr if a < s) and any(a in stored for a in inr if a > s) for s in inr)
+        cls = ['store:' + case['persist'], 'E0' if E == 0 else 'E_given', 'role:' + case['role'], 'schema:' + schema]
+        if hole_between: cls.append('hole_between_stored')
+        if not st_in: cls.append('nothing_stored_in_range')
+        return {'nontrivial': (len(holes) >= 2 and len(st_in) >= 2 and E != 0) or hole_between, 'classes': cls,
+                'key': [case['persist'], sorted(stored), last, B, E], 'sample': {'store': case['persist'], 'sent': last, 'stored': sorted(stored), 'request': [B, E]}}
+
+    def request(self, ex, S, peer, sent, stored, last, B, E, nr, clock, trace):
+        sessref.set_clock(ex, clock)
+        trace.append('ResendRequest 7=%d 16=%d' % (B, E))
+        o = S.feed(peer.msg('2', nr, ts(clock), [(7, B), (16, E)]))
+        Ee = E if E else last
+        p = B
+        reply = o.msgs
+        shown = ['%s 34=%s%s%s' % (m.type, m.seq, ' 43=Y' if m.possdup else '', ' 36=%s' % m.get(36) if m.type == '4' else '') for m in reply]
+        trace.append('reply: ' + ', '.join(shown))
+
+        def fail(msg):
+            raise Violation('C18: %s\n  %s' % (msg, '\n  '.join(trace)))
+        for m in reply:
+            if m.type == '4':
+                if m.get(123) != 'Y':
+                    fail('SequenceReset without GapFillFlag=Y in a replay')
+                n = m.get(36, '')
+                if m.seq != p:
+                    fail('gap-fill carries MsgSeqNum %s, the first number of the gap is %d' % (m.seq, p))
+                if not n.isdigit() or int(n) <= p:
+                    fail('gap-fill at %d announces NewSeqNo %s (must be above its own number)' % (p, n))
+                n = int(n)
+                skipped = [s for s in range(p, n) if s in stored and B <= s <= Ee]
+                if skipped:
+                    fail('gap-fill %d -> %d skips stored application message(s) %s of the requested range' % (p, n, skipped))
+                p = n
+            elif m.is_admin:
+                fail('unexpected administrative message 35=%s 34=%s in the replay' % (m.type, m.seq))
+            else:
+                if m.seq != p:
+                    if m.seq in stored and m.seq > p:
+                        fail('numbers %d..%d have no stored message and were not covered by a gap-fill before message %d was replayed' % (p, m.seq - 1, m.seq))
+                    fail('replayed message carries MsgSeqNum %s, expected %d' % (m.seq, p))
+                if p not in stored or p > Ee:
+                    fail('message %d replayed although it is %s' % (p, 'outside the requested range' if p in stored else 'not a stored application message'))
+                orig = sent[p]
+                if not m.possdup:
+                    fail('replayed message %d lacks PossDupFlag=Y' % p)
+                if m.get(122) != orig.get(52):
+                    fail('replayed message %d has OrigSendingTime %s, the original SendingTime was %s' % (p, m.get(122), orig.get(52)))
+                if m.body_toks() != orig.body_toks() or m.type != orig.type or m.get(49) != orig.get(49) or m.get(56) != orig.get(56):
+                    fail('replayed message %d differs from the stored original\n   original: %s\n   replayed: %s' % (p, orig.show(), m.show()))
+                p += 1
+        if p <= Ee:
+            fail('the replay ends at %d: numbers %d..%d of the requested range were neither replayed nor gap-filled' % (p - 1, p, Ee))
+        if o.st != sessref.ST_CONTINUOUS:
+            fail('session state after the replay is %s' % sessref.STATE_NAMES[o.st])
+        return p
+
+
+CHECKS['C18'] = C18
+
+
+# ================================================================================================
+# C19: inbound messages reach the application only when in sequence
+# ================================================================================================
+class C19:
+    id = 'C19'
+    level = 'exploration'
+    build = [('asan', 'fx')]
+    workers = 8
+    examples = 3000
+    assumptions = ['the application callback is the one every sample application uses: deliver unless Session::enforce objects (harness/cpp/fx_sess.cpp TSession::handle_application)',
+                   'the expected number is the protocol model\'s: it advances by one for every in-sequence message and not for a message above or below it',
+                   'implications checked (the statement is "only if" for delivery, so a message that is not delivered never violates the first sentence): '
+                   'delivered => number equals expected, or lower with PossDupFlag=Y and OrigSendingTime <= SendingTime, and CompIDs right when enforced, and decodable; '
+                   'higher number with no ResendRequest outstanding => not delivered and ResendRequest(BeginSeqNo = expected) sent; lower without PossDupFlag=Y, or wrong CompIDs under '
+                   'enforcement => not delivered, a Logout is sent and the session ends; undecodable => not delivered and a Reject referring to it is sent unless the session ends',
+                   'states: logon sent (initiator, before the reply), continuous, resend request sent, test request sent; what must happen to a higher number while the session is not yet '
+                   'established (logon sent) is not constrained beyond "not delivered"']
+    rule = ('Hypothesis draws FIX version, role, CompID enforcement on/off, a session state (reached through real traffic: logon, a higher message, a silent period + tick) and 1-4 inbound '
+            'probes: application message numbered expected / lower / higher, PossDupFlag absent|N|Y, OrigSendingTime absent|earlier|equal|later, CompIDs right|swapped|wrong sender|wrong target, '
+            'header sub-ID values containing the text "34=<n>" placed before MsgSeqNum (n = expected, lower, higher), corrupt variants (checksum, unknown tag, missing mandatory field). Oracle: the implications listed under assumptions, evaluated against a protocol model of the expected number. Non-trivial: a "34=" look-alike, a PossDup replay '
+            'or an out-of-sequence probe.')
+
+    replaying_known = False
+
+    def __init__(self, tier):
+        self.tier = tier
+        if tier == 'thorough':
+            self.examples = 100000
+            self.workers = 16
+
+    def make_executor(self):
+        return executor()
+
+    def strategy(self):
+        probe = st.fixed_dictionaries({
+            'rel': st.sampled_from(['eq', 'eq', 'lower', 'lower', 'higher']),
+            'delta': st.integers(1, 5),
+            'pd': st.sampled_from([None, None, 'N', 'Y', 'Y']),
+            'orig': st.sampled_from([None, 'earlier', 'equal', 'later']),
+            'comp': st.sampled_from(['ok', 'ok', 'ok', 'ok', 'swapped', 'sender', 'target']),
+            'look': st.sampled_from([None, None, None, 'eq', 'lower', 'higher']),
+            'looktag': st.sampled_from([50, 57, 115]),
+            'corrupt': st.sampled_from([None, None, None, None, 'chk', 'unknown_tag', 'missing']),
+        })
+        return st.fixed_dictionaries({
+            'schema': st.sampled_from(['UTEST', 'F44']), 'role': st.sampled_from(['i', 'a']), 'enforce': st.booleans(),
+            'state': st.sampled_from(['continuous', 'continuous', 'resend_sent', 'testreq_sent', 'logon_sent']),
+            'warm': st.integers(0, 4),
+            'probes': st.lists(probe, min_size=1, max_size=4),
+        })
+
+    def run(self, case, ex):
+        schema = case['schema']
+        begin = sessref.BEGIN[schema]
+        initiator = case['role'] == 'i' or case['state'] == 'logon_sent'
+        me, them = ('CLI', 'SRV') if initiator else ('SRV', 'CLI')
+        peer = Peer(begin, them, me)
+        sessref.wipe(ex)
+        clock = T0
+        sessref.set_clock(ex, clock)
+        S = Sess(ex, schema)
+        trace = ['%s %s enforce=%s target state %s' % (schema, 'initiator' if initiator else 'acceptor', case['enforce'], case['state'])]
+        flags = '-' if case['enforce'] else 'enforce0'
+        S.new('i' if initiator else 'a', me, them, 30, 'mem:c19', flags)
+        exp = 1                     # model: next expected inbound number
+        outstanding = False         # a ResendRequest has been sent and not yet satisfied
+        established = False
+        if case['state'] != 'logon_sent':
+            o = S.feed(peer.msg('A', exp, ts(clock), [(98, 0), (108, 30)])); exp += 1
+            established = True
+            for i in range(case['warm']):
+                o = S.feed(peer.msg('D', exp, ts(clock), sessref.nos_toks('w%d' % i, ts(clock)))); exp += 1
+                if len(o.deliv) != 1:
+                    raise Violation('C19: setup: in-sequence message %d not delivered\n  %s' % (exp - 1, '\n  '.join(trace)))
+            if case['state'] == 'resend_sent':
+                o = S.feed(peer.msg('D', exp + 3, ts(clock), sessref.nos_toks('gap', ts(clock))))
+                trace.append('setup: inbound app 34=%d while %d expected -> out %s' % (exp + 3, exp, [(m.type, m.get(7)) for m in o.msgs]))
+                outstanding = True
+                if o.st != sessref.ST_RESEND_REQUEST_SENT:
+                    raise Violation('C19: setup: state after a higher message is %s\n  %s' % (sessref.STATE_NAMES[o.st], '\n  '.join(trace)))
+            elif case['state'] == 'testreq_sent':
+                clock += 40
+                sessref.set_clock(ex, clock)
+                o = S.tick()
+                trace.append('setup: 40 s of silence, tick -> out %s' % [m.type for m in o.msgs])
+                if o.st != sessref.ST_TEST_REQUEST_SENT:
+                    raise Violation('C19: setup: state after a silent period is %s\n  %s' % (sessref.STATE_NAMES[o.st], '\n  '.join(trace)))
+        cls = {'state:' + case['state'], 'enforce:%s' % case['enforce']}
+        nontrivial = False
+        excluded = []
+        for pi, pr in enumerate(case['probes']):
+            rel = pr['rel']
+            if rel == 'lower' and exp <= 1:
+                rel = 'eq'
+            if rel == 'higher' and case['state'] == 'testreq_sent' and not outstanding and not self.replaying_known:
+                # open known finding higher-while-testrequest-pending: the class is excluded from the search by construction (and counted);
+                # its saved reproducer is replayed on every run
+                excluded.append('higher_number_while_testrequest_pending(known finding)')
+                rel = 'eq'
+            seq = exp if rel == 'eq' else (max(1, exp - pr['delta']) if rel == 'lower' else exp + pr['delta'])
+            now = ts(clock)
+            orig = {None: None, 'earlier': ts(clock - 50), 'equal': now, 'later': ts(clock + 50)}[pr['orig']]
+            snd, tgt = {'ok': (them, me), 'swapped': (me, them), 'sender': ('XXX', me), 'target': (them, 'YYY')}[pr['comp']]
+            pre = []
+            if pr['look']:
+                lv = exp if pr['look'] == 'eq' else (max(1, exp - 1) if pr['look'] == 'lower' else exp + 2)
+                pre = [(pr['looktag'], 'Z34=%d' % lv)]
+            toks = sessref.nos_toks('p%d' % pi, now)
+            corrupt = pr['corrupt']
+            if corrupt == 'unknown_tag': toks = toks + [(20999, 'zz')]
+            elif corrupt == 'missing': toks = [t for t in toks if t[0] != 54]
+            elif corrupt == 'badvalue': toks = [(t[0], 'notatime') if t[0] == 60 else t for t in toks]
+            raw = inbound(begin, 'D', snd, tgt, seq, now, toks, possdup=pr['pd'], orig=orig, pre_seq=pre)
+            if corrupt == 'chk':
+                raw = raw[:-4] + '%03d' % ((int(raw[-4:-1]) + 1) % 256) + SOH
+            desc = 'probe: app 34=%d (expected %d) 43=%s 122=%s compids=%s lookalike=%s corrupt=%s' % (seq, exp, pr['pd'], pr['orig'], pr['comp'], pre, corrupt)
+            trace.append(desc)
+            o = S.feed(raw)
+            out = o.msgs
+            ended = bool(o.shut) or o.st in (sessref.ST_TERMINATED, sessref.ST_LOGOFF_SENT)
+            trace.append('  -> delivered %d, out %s, state %s%s' % (len(o.deliv), [(m.type, m.get(7) or m.get(45) or '') for m in out], sessref.STATE_NAMES[o.st], ' (ended)' if ended else ''))
+
+            def fail(msg):
+                raise Violation('C19: %s\n  %s' % (msg, '\n  '.join(trace)))
+            compbad = pr['comp'] != 'ok' and case['enforce']
+            dup_ok = seq < exp and pr['pd'] == 'Y' and pr['orig'] != 'later'
+            may_deliver = established and not corrupt and not compbad and (seq == exp or dup_ok)
+            if o.deliv and not may_deliver:
+                why = ('the message is undecodable' if corrupt else 'CompIDs are wrong and enforced' if compbad else 'the session is not established' if not established else
+                       'its MsgSeqNum %d is %s the expected %d%s' % (seq, 'above' if seq > exp else 'below', exp, '' if seq > exp else ' without a valid PossDup resend'))
+                fail('message delivered to the application although ' + why)
+            if len(o.deliv) > 1:
+                fail('one inbound message delivered %d times' % len(o.deliv))
+            if established and not corrupt:
+                if compbad:
+                    if not ended or not any(m.type == '5' for m in out):
+                        fail('wrong CompIDs under enforcement must end the session with a Logout (ended=%s, outbound %s)' % (ended, [m.type for m in out]))
+                elif seq < exp and pr['pd'] != 'Y':
+                    if not ended or not any(m.type == '5' for m in out):
+                        fail('a number below the expected one without PossDupFlag=Y must end the session with a Logout (ended=%s, outbound %s)' % (ended, [m.type for m in out]))
+                elif seq > exp and not outstanding:
+                    rr = [m for m in out if m.type == '2']
+                    if not rr or rr[0].get(7) != str(exp):
+                        fail('a number above the expected one must trigger a ResendRequest starting at %d (outbound %s)' % (exp, [(m.type, m.get(7)) for m in out]))
+                    outstanding = True
+            if corrupt and established and not compbad:
+                if not ended and not any(m.type == '3' and m.get(45) == str(seq) for m in out):
+                    fail('an undecodable message must be answered with a Reject referring to it unless the session ends (outbound %s)' % [(m.type, m.get(45)) for m in out])
+            if pr['look'] or pr['pd'] == 'Y' or seq != exp:
+                nontrivial = True
+            if pr['look']: cls.add('lookalike_34')
+            if dup_ok: cls.add('possdup_replay')
+            if seq > exp: cls.add('higher')
+            if seq < exp: cls.add('lower')
+            if corrupt: cls.add('corrupt')
+            if compbad: cls.add('compid_enforced_bad')
+            if ended:
+                break
+            # model: only an in-sequence, processed message advances the expected number; a corrupt in-sequence message is consumed too (it is answered by Reject)
+            # (CompIDs of an undecodable message cannot be looked at, so it is consumed whatever they are)
+            if seq == exp and established and (corrupt or not compbad):
+                exp += 1
+        S.delete()
+        return {'nontrivial': nontrivial, 'classes': sorted(cls), 'excluded': excluded, 'key': case, 'sample': {'trace': trace}}
+
+
+CHECKS['C19'] = C19
+
+
+# ================================================================================================
+# C22: heartbeat / test request supervision on the virtual clock
+# ================================================================================================
+class C22:
+    id = 'C22'
+    level = 'exploration'
+    build = [('asan', 'fx')]
+    workers = 8
+    examples = 1000
+    assumptions = ['supervision ticks are calls of the real Session::heartbeat_service() made by the harness at generated instants of the interposed clock (the Timer thread is stopped); '
+                   'instants have millisecond resolution',
+                   'tolerance for the whole-second arithmetic of the supervisor: a TestRequest (and later the Logout) is demanded only once the silence has reached '
+                   'H + floor(H/5) + 1 s; a Logout/termination is an error only while the silence since the TestRequest is still <= 1.2 H; in between both behaviours are accepted. '
+                   'A Heartbeat is demanded at a tick exactly when nothing was sent for >= H s. Sending a Heartbeat or TestRequest earlier than required is not treated as a violation',
+                   'while a TestRequest is pending the only inbound traffic generated is a Heartbeat (with or without TestReqID): the statement defines the effect of nothing else',
+                   'open known finding (Logout at the tick after the TestRequest): timelines in which the implementation agrees with the protocol model except for exactly that early '
+                   'Logout - predicted by the model with the known defect switched on - end there and are counted under excluded_by_construction; any other disagreement is a violation']
+    rule = ('Hypothesis draws H in 1..120 (biased to 1, 2, 4, 5, 6, 30), role, FIX version and a timeline of 1-40 events: clock advance (0..2H s, biased to H-1, H, H+1 and to the '
+            '1.2H boundary +-1 s, plus 0/1/500/999 ms), supervision tick, application send, inbound application message, inbound Heartbeat, inbound TestRequest(id). A model keeps '
+            'last-sent / last-received instants and the pending TestRequest; at every tick the outbound messages are compared with what the model demands (Heartbeat, TestRequest, '
+            'Logout+termination) and forbids (early Logout); an inbound TestRequest must be answered at once by a Heartbeat with the same TestReqID; an inbound Heartbeat while pending '
+            'must return the state to continuous. Non-trivial: a timeline that reaches TestRequest and then either recovery or Logout.')
+
+    replaying_known = False
+
+    def __init__(self, tier):
+        self.tier = tier
+        if tier == 'thorough':
+            self.examples = 50000
+            self.workers = 16
+
+    def make_executor(self):
+        return executor()
+
+    def strategy(self):
+        ev = st.one_of(
+            st.tuples(st.just('adv'), st.sampled_from(['0', '1', 'H-1', 'H', 'H+1', 'P-1', 'P', 'P+1', 'P+2', 'rnd', 'rnd']), st.integers(0, 10 ** 6), st.sampled_from([0, 0, 0, 1, 500, 999])),
+            st.tuples(st.just('adv'), st.sampled_from(['1', '1', 'H-1', 'P+1']), st.integers(0, 10 ** 6), st.just(0)),
+            st.tuples(st.just('tick')), st.tuples(st.just('tick')), st.tuples(st.just('tick')),
+            st.tuples(st.just('quiet'), st.integers(1, 300), st.sampled_from([1, 1, 1, 2, 3]), st.sampled_from([0, 0, 250])),   # a silent stretch: tick every step seconds
+            st.tuples(st.just('send')),
+            st.tuples(st.just('in_app')),
+            st.tuples(st.just('in_hb'), st.booleans()),
+            st.tuples(st.just('in_testreq'), st.sampled_from(['X', 'TEST', 'id-42', '9']))
+        )
+        return st.fixed_dictionaries({'schema': st.sampled_from(['UTEST', 'F44']), 'role': st.sampled_from(['i', 'a']),
+                                      'H': st.one_of(st.sampled_from([1, 2, 4, 5, 6, 30]), st.integers(1, 120)),
+                                      'events': st.lists(ev, min_size=1, max_size=40)})
+
+    def run(self, case, ex):
+        schema, H = case['schema'], case['H']
+        begin = sessref.BEGIN[schema]
+        initiator = case['role'] == 'i'
+        me, them = ('CLI', 'SRV') if initiator else ('SRV', 'CLI')
+        peer = Peer(begin, them, me)
+        sessref.wipe(ex)
+        now = T0 * 1000                        # model clock in ms
+        sessref.set_clock(ex, T0)
+        S = Sess(ex, schema)
+        S.new(case['role'], me, them, H, 'none')
+        nr = 1
+        o = S.feed(peer.msg('A', nr, ts(T0), [(98, 0), (108, H)])); nr += 1
+        if o.st != sessref.ST_CONTINUOUS:
+            raise Violation('C22: setup: logon failed, state %s' % sessref.STATE_NAMES[o.st])
+        last_sent = last_recv = now
+        pending_since = None
+        P = H + H // 5                          # the supervisor's whole-second period
+        trace = ['%s %s H=%d' % (schema, case['role'], H)]
+        cls = set()
+        excluded = []
+        reached_tr = outcome = False
+
+        def fail(msg):
+            raise Violation('C22: %s\n  %s' % (msg, '\n  '.join(trace)))
+
+        def clk():
+            sessref.set_clock(ex, now // 1000, (now % 1000) * 1000000)
+            return ts(now // 1000, now % 1000)
+        n = 0
+        events = []
+        for e in case['events']:
+            if e[0] == 'quiet':
+                steps = min(e[1], (3 * H) // e[2] + 2, 150)
+                for _ in range(steps):
+                    events += [('adv', 'abs', e[2], e[3]), ('tick',)]
+            else:
+                events.append(e)
+        for e in events:
+            k = e[0]
+            n += 1
+            if k == 'adv':
+                secs = e[2] if e[1] == 'abs' else {'0': 0, '1': 1, 'H-1': H - 1, 'H': H, 'H+1': H + 1, 'P-1': P - 1, 'P': P, 'P+1': P + 1, 'P+2': P + 2, 'rnd': e[2] % (2 * H + 1)}[e[1]]
+                now += max(0, secs) * 1000 + e[3]
+                trace.append('t=+%.3f s' % ((now - T0 * 1000) / 1000.0))
+                clk()
+                continue
+            t = clk()
+            if k == 'tick':
+                ds, dr = now - last_sent, now - last_recv
+                o = S.tick()
+                types = [(m.type, m.get(112)) for m in o.msgs]
+                ended = bool(o.shut) or o.st in (sessref.ST_TERMINATED, sessref.ST_LOGOFF_SENT)
+                trace.append('tick: silent out %.3f s, in %.3f s%s -> out %s state %s' % (ds / 1000.0, dr / 1000.0, '' if pending_since is None else ', TestRequest pending %.3f s' % ((now - pending_since) / 1000.0),
+                                                                                   types, sessref.STATE_NAMES[o.st]))
+                if ds >= H * 1000 and not any(m.type == '0' for m in o.msgs):
+                    fail('nothing was sent for %.3f s (H=%d) but the tick sent no Heartbeat' % (ds / 1000.0, H))
+                if o.msgs:
+                    last_sent = now
+                logout = any(m.type == '5' for m in o.msgs)
+                if pending_since is not None:
+                    dp = now - pending_since
+                    if dp >= (P + 1) * 1000 and not (logout and ended):
+                        fail('TestRequest unanswered for %.3f s (period %d s + 20%%) but no Logout/termination (out %s, state %s)' % (dp / 1000.0, H, types, sessref.STATE_NAMES[o.st]))
+                    if (logout or ended) and dp * 10 <= 12 * H * 1000:
+                        # open known finding logout-one-tick-after-testrequest, decided with two models: the protocol model forbids this Logout; the model with the
+                        # known defect switched on (silence still measured from the last received message) predicts it exactly when that silence exceeds the period.
+                        # Agreement with the defective model only -> known class (counted, timeline ends); disagreement with both -> violation.
+                        if not self.replaying_known and logout and ended and dr // 1000 > P:
+                            excluded.append('early_logout_after_testrequest(known finding)')
+                            cls.add('logout_after_testrequest_early(known)'); outcome = True
+                            break
+                        fail('Logout/termination only %.3f s after the TestRequest: the period of H + 20%% = %.1f s has not elapsed' % (dp / 1000.0, 1.2 * H))
+                    if logout or ended:
+                        cls.add('logout_after_testrequest'); outcome = True
+                        break
+                else:
+                    tr = [m for m in o.msgs if m.type == '1']
+                    if dr >= (P + 1) * 1000 and not tr:
+                        fail('nothing received for %.3f s (> H + 20%% = %.1f s) but the tick sent no TestRequest (out %s)' % (dr / 1000.0, 1.2 * H, types))
+                    if logout or ended:
+                        fail('Logout/termination at a tick without a TestRequest pending (out %s)' % types)
+                    if tr:
+                        if not tr[0].get(112):
+                            fail('TestRequest without TestReqID')
+                        pending_since = now
+                        reached_tr = True
+                        cls.add('testrequest_sent')
+            elif k == 'send':
+                o = S.send(sessref.nos_spec('o%d' % n))
+                trace.append('send app -> %s' % [m.type for m in o.msgs])
+                last_sent = now
+            else:
+                if pending_since is not None and k != 'in_hb':
+                    k, e = 'in_hb', ('in_hb', True)
+                if k == 'in_app':
+                    o = S.feed(peer.msg('D', nr, t, sessref.nos_toks('p%d' % n, t))); nr += 1
+                    trace.append('inbound app -> out %s' % [m.type for m in o.msgs])
+                elif k == 'in_hb':
+                    extra = [(112, 'TEST')] if (e[1] and pending_since is not None) else []
+                    o = S.feed(peer.msg('0', nr, t, extra)); nr += 1
+                    trace.append('inbound Heartbeat %s -> out %s state %s' % (extra, [m.type for m in o.msgs], sessref.STATE_NAMES[o.st]))
+                    if pending_since is not None:
+                        if o.st != sessref.ST_CONTINUOUS:
+                            fail('inbound Heartbeat while a TestRequest is pending left the state at %s' % sessref.STATE_NAMES[o.st])
+                        pending_since = None
+                        cls.add('recovered_by_heartbeat'); outcome = True
+                else:
+                    o = S.feed(peer.msg('1', nr, t, [(112, e[1])])); nr += 1
+                    trace.append('inbound TestRequest %s -> out %s' % (e[1], [(m.type, m.get(112)) for m in o.msgs]))
+                    if not o.msgs or o.msgs[0].type != '0' or o.msgs[0].get(112) != e[1]:
+                        fail('inbound TestRequest %r not answered by a Heartbeat with the same TestReqID (out %s)' % (e[1], [(m.type, m.get(112)) for m in o.msgs]))
+                    cls.add('testrequest_answered')
+                last_recv = now
+                if o.msgs:
+                    last_sent = now
+                if o.shut or o.st == sessref.ST_TERMINATED:
+                    fail('session ended on conformant inbound traffic (state %s)' % sessref.STATE_NAMES[o.st])
+        S.delete()
+        return {'nontrivial': reached_tr and outcome, 'classes': sorted(cls) + ['role:' + case['role']], 'excluded': excluded, 'key': case, 'sample': {'timeline': trace[:40]}}
+
+
+CHECKS['C22'] = C22
+
+
+# ================================================================================================
+# C23: logon acceptance, CompID identity, SessionID comparison
+# ================================================================================================
+class C23:
+    id = 'C23'
+    level = 'exploration'
+    build = [('asan', 'fx')]
+    workers = 8
+    examples = 3000
+    assumptions = ['acceptor: a Session constructed with its SenderCompID and started on a ServerConnection (no SessionConfig object: loggers/persister are handed in, as the unit tests do); '
+                   'the Logon carries the number the acceptor expects (1 with ResetSeqNumFlag=Y), so that sequence handling (C19/C20) does not interfere',
+                   'client list entries carry no IP restriction',
+                   'both directions are checked where the statement is unambiguous: every stated condition violated => no logon completes and no Logon is sent; all conditions hold => '
+                   'state continuous and exactly one Logon echoing HeartBtInt; with enforcement off a foreign TargetCompID is accepted or refused as the implementation likes',
+                   'initiator: with enforcement on, a Logon response that does not mirror the session identity must not lead to an established session; with enforcement off nothing is demanded']
+    rule = ('Three generated families. (1) Acceptor: own CompID, enforcement on/off, client list absent / containing / lacking the sender, Logon with TargetCompID right/wrong, SenderCompID, '
+            'HeartBtInt 1..300, ResetSeqNumFlag absent/N/Y, store with or without earlier numbers. (2) Initiator: Logon response with CompIDs mirrored / both wrong / only sender wrong / '
+            'only target wrong, enforcement on/off. (3) SessionID pairs over all equal/unequal combinations of the two CompIDs (and BeginString), built from parts or from the id string: '
+            '(a != b) == !(a == b), a == b <=> both CompIDs equal, symmetric, reflexive, copies equal. Non-trivial: exactly one of the two CompIDs differs.')
+
+    def __init__(self, tier):
+        self.tier = tier
+        if tier == 'thorough':
+            self.examples = 50000
+            self.workers = 16
+
+    def make_executor(self):
+        return executor()
+
+    def strategy(self):
+        comp = st.sampled_from(['A', 'B', 'SRV', 'CLI', 'SRV2', 'srv', 'X_1', 'LONGCOMPID_0123456789'])
+        acc = st.fixed_dictionaries({'kind': st.just('acc'), 'schema': st.sampled_from(['UTEST', 'F44']), 'enforce': st.booleans(),
+                                     'clients': st.sampled_from([None, None, 'has', 'lacks']), 'target_ok': st.sampled_from([True, True, False]),
+                                     'sender': st.sampled_from(['CLI', 'CLI', 'OTHER']), 'hb': st.one_of(st.integers(1, 300), st.sampled_from([1, 30, 300])),
+                                     'reset': st.sampled_from([None, 'N', 'Y', 'Y']), 'prepop': st.one_of(st.none(), st.tuples(st.integers(2, 400), st.integers(2, 400)))})
+        ini = st.fixed_dictionaries({'kind': st.just('ini'), 'schema': st.sampled_from(['UTEST', 'F44']), 'enforce': st.sampled_from([True, True, False]),
+                                     'reply': st.sampled_from(['mirror', 'both', 'sender', 'target'])})
+        sid = st.fixed_dictionaries({'kind': st.just('sid'), 's1': comp, 't1': comp, 's2': comp, 't2': comp, 'same_s': st.booleans(), 'same_t': st.booleans(),
+                                     'b1': st.sampled_from(['FIX.4.2', 'FIX.4.4']), 'b2': st.sampled_from(['FIX.4.2', 'FIX.4.4']), 'via': st.sampled_from(['ctor', 'string'])})
+        return st.one_of(acc, ini, sid, sid)
+
+    def run(self, case, ex):
+        return getattr(self, 'run_' + case['kind'])(case, ex)
+
+    def run_sid(self, c, ex):
+        s2 = c['s1'] if c['same_s'] else c['s2']
+        t2 = c['t1'] if c['same_t'] else c['t2']
+        a = ex.call('sid %s %s %s %s %s %s %s' % (hx(c['b1']), hx(c['s1']), hx(c['t1']), hx(c['b2']), hx(s2), hx(t2), c['via']))
+        equal = c['s1'] == s2 and c['t1'] == t2
+        desc = 'SessionID(%s:%s->%s) vs SessionID(%s:%s->%s) built via %s' % (c['b1'], c['s1'], c['t1'], c['b2'], s2, t2, c['via'])
+        if a['eq'] != equal or a['eq_rev'] != equal:
+            raise Violation('C23: %s: operator== gives %s/%s, the CompIDs are %s' % (desc, a['eq'], a['eq_rev'], 'equal' if equal else 'not equal'))
+        if a['ne'] != (not a['eq']) or a['ne_rev'] != (not a['eq_rev']):
+            raise Violation('C23: %s: operator!= gives %s while operator== gives %s' % (desc, a['ne'], a['eq']))
+        if not a['self_eq'] or a['self_ne'] or not a['copy_eq'] or a['copy_ne']:
+            raise Violation('C23: %s: identity compares unequal to itself or to its copy: %r' % (desc, a))
+        one = (c['s1'] == s2) != (c['t1'] == t2)
+        return {'nontrivial': one, 'classes': ['sid', 'sid:one_differs' if one else ('sid:equal' if equal else 'sid:both_differ')], 'key': [c['s1'], c['t1'], s2, t2, c['via']],
+                'sample': {'kind': 'SessionID comparison', 'a': '%s->%s' % (c['s1'], c['t1']), 'b': '%s->%s' % (s2, t2)}}
+
+    def run_ini(self, c, ex):
+        schema = c['schema']; begin = sessref.BEGIN[schema]
+        sessref.wipe(ex); sessref.set_clock(ex, T0)
+        S = Sess(ex, schema)
+        S.new('i', 'CLI', 'SRV', 30, 'none', '-' if c['enforce'] else 'enforce0')
+        snd, tgt = {'mirror': ('SRV', 'CLI'), 'both': ('XXX', 'YYY'), 'sender': ('XXX', 'CLI'), 'target': ('SRV', 'YYY')}[c['reply']]
+        o = S.feed(inbound(begin, 'A', snd, tgt, 1, ts(T0), [(98, 0), (108, 30)]))
+        desc = 'initiator CLI->SRV (enforcement %s) receives Logon 49=%s 56=%s: state %s, shutdown %s' % (c['enforce'], snd, tgt, sessref.STATE_NAMES[o.st], o.shut)
+        S.delete()
+        if c['reply'] == 'mirror':
+            if o.st != sessref.ST_CONTINUOUS:
+                raise Violation('C23: a mirrored Logon response did not establish the session: ' + desc)
+        elif c['enforce'] and (o.st == sessref.ST_CONTINUOUS or not (o.shut or o.st == sessref.ST_TERMINATED)):
+            raise Violation('C23: a Logon response that does not mirror the session identity was not treated as a mismatch: ' + desc)
+        return {'nontrivial': c['reply'] in ('sender', 'target'), 'classes': ['ini', 'ini:' + c['reply']], 'key': c, 'sample': {'kind': 'initiator', 'case': desc}}
+
+    def run_acc(self, c, ex):
+        schema = c['schema']; begin = sessref.BEGIN[schema]
+        sessref.wipe(ex); sessref.set_clock(ex, T0)
+        S = Sess(ex, schema)
+        flags = [] if c['enforce'] else ['enforce0']
+        if c['clients'] == 'has': flags.append('clients=CLI;ZED')
+        elif c['clients'] == 'lacks': flags.append('clients=ZED;QQQ')
+        flags = ','.join(flags) or '-'
+        ns, nr = 1, 1
+        if c['prepop']:
+            ps, pr = c['prepop']
+            S.new('a', 'SRV', 'CLI', 30, 'mem:c23', '-', ps, pr)
+            S.feed(inbound(begin, 'A', 'CLI', 'SRV', pr, ts(T0), [(98, 0), (108, 30)]))
+            S.delete()
+            ns, nr = ps + 1, pr + 1
+        S.new('a', 'SRV', 'CLI', 30, 'mem:c23', flags)
+        reset = c['reset'] == 'Y'
+        tgt = 'SRV' if c['target_ok'] else 'NOTME'
+        extra = [(98, 0), (108, c['hb'])] + ([(141, c['reset'])] if c['reset'] else [])
+        seq = 1 if reset else nr
+        o = S.feed(inbound(begin, 'A', c['sender'], tgt, seq, ts(T0), extra))
+        logons = [m for m in o.msgs if m.type == 'A']
+        desc = 'acceptor SRV (enforcement %s, clients %s, store %s) receives Logon 49=%s 56=%s 34=%d 108=%d 141=%s -> state %s, out %s, next send %s / receive %s' % (
+            c['enforce'], c['clients'], c['prepop'], c['sender'], tgt, seq, c['hb'], c['reset'], sessref.STATE_NAMES[o.st], [(m.type, m.seq, m.get(108)) for m in o.msgs], o.nss, o.nrs)
+        S.delete()
+        must_refuse = (c['enforce'] and not c['target_ok']) or (c['clients'] is not None and (c['clients'] == 'lacks' or c['sender'] != 'CLI'))
+        must_accept = c['target_ok'] and (c['clients'] is None or (c['clients'] == 'has' and c['sender'] == 'CLI'))
+        if must_refuse:
+            if o.st == sessref.ST_CONTINUOUS or logons:
+                raise Violation('C23: logon completed although %s: %s' % ('TargetCompID is not the acceptor\'s CompID' if (c['enforce'] and not c['target_ok']) else 'the sender is not in the client list', desc))
+        elif must_accept:
+            if o.st != sessref.ST_CONTINUOUS or len(logons) != 1:
+                raise Violation('C23: a Logon satisfying every condition did not complete: ' + desc)
+            lg = logons[0]
+            if lg.get(108) != str(c['hb']):
+                raise Violation('C23: the Logon response does not echo HeartBtInt %d: %s' % (c['hb'], desc))
+            if lg.get(49) != 'SRV' or lg.get(56) != c['sender']:
+                raise Violation('C23: the Logon response carries CompIDs %s->%s: %s' % (lg.get(49), lg.get(56), desc))
+            if reset:
+                if lg.seq != 1 or o.nss != 2 or o.nrs != 2:
+                    raise Violation('C23: ResetSeqNumFlag=Y did not reset both sequence numbers to 1: ' + desc)
+            else:
+                if lg.seq != ns or o.nss != ns + 1 or o.nrs != nr + 1:
+                    raise Violation('C23: logon without reset did not continue from the stored numbers (%d, %d): %s' % (ns, nr, desc))
+        cls = ['acc', 'acc:refuse' if must_refuse else 'acc:accept' if must_accept else 'acc:unconstrained']
+        if reset: cls.append('acc:reset')
+        return {'nontrivial': (not c['target_ok']) != (c['sender'] != 'CLI') or reset, 'classes': cls, 'key': c, 'sample': {'kind': 'acceptor', 'case': desc}}
+
+
+CHECKS['C23'] = C23
